@@ -549,6 +549,9 @@ func (w *World) BlockedTasks() []string {
 // runnable task continues. No-op (and no draw) in a single-task world.
 func (w *World) Yield(where string) {
 	w.KernelCalls++
+	if w.KernelCalls > 30_000_000 {
+		Bug("run exceeded 30M kernel calls (runaway)")
+	}
 	if !w.multi || w.dead {
 		return
 	}
